@@ -29,7 +29,40 @@ fn describe(size: usize, slide: usize, exact: bool, input: &[E<In>], out: &[E<Ou
            "input": format!("{:?}", input), "impl_output": format!("{:?}", out)})
 }
 
+/// the same input through the other window aggregators of the API; each yields (key, i64)
+pub fn run_aggs(size: usize, slide: usize, exact: bool, input: &[E<In>]) -> Vec<(u64, Vec<E<(i64, i64)>>)> {
+    let mut res = vec![];
+    for a in 0..8u64 {
+        let inp = input.to_vec();
+        let out = catch(move || {
+            macro_rules! w { ($s:expr) => { $s.key_by(|x: &In| x.0).map(|(_, x): (&i64, In)| x.1).window(CountWindow::new(size, slide, exact)) } }
+            match a {
+                0 => run_chain(inp, move |s| w!(s).count().map(|(_, c): (&i64, usize)| c as i64).0),
+                1 => run_chain(inp, move |s| w!(s).sum::<i64>().0),
+                2 => run_chain(inp, move |s| w!(s).max().0),
+                3 => run_chain(inp, move |s| w!(s).min().0),
+                4 => run_chain(inp, move |s| w!(s).first().0),
+                5 => run_chain(inp, move |s| w!(s).last().0),
+                6 => run_chain(inp, move |s| w!(s).fold_first(|a: &mut i64, x: i64| *a += x).0),
+                _ => run_chain(inp, move |s| w!(s).map(|v: Vec<i64>| v.into_iter().sum::<i64>()).0),
+            }
+        })
+        .unwrap_or_else(|e| { eprintln!("C12 aggregator {a}: {e}"); vec![E::Item((i64::MIN, i64::MIN))] });
+        res.push((a, out));
+    }
+    res
+}
+
+fn aggs_coq(aggs: &[(u64, Vec<E<(i64, i64)>>)]) -> String {
+    let v: Vec<String> = aggs.iter().map(|(a, o)| format!("({}%N, {})", a, o.coq())).collect();
+    format!("[{}]", v.join("; "))
+}
+
 fn emit(sink: &mut CaseSink, size: usize, slide: usize, exact: bool, input: Vec<E<In>>) {
+    emit_with(sink, size, slide, exact, input, false)
+}
+
+fn emit_with(sink: &mut CaseSink, size: usize, slide: usize, exact: bool, input: Vec<E<In>>, with_aggs: bool) {
     let out = match run_impl(size, slide, exact, input.clone()) {
         Ok(o) => o,
         Err(msg) => {
@@ -49,7 +82,10 @@ fn emit(sink: &mut CaseSink, size: usize, slide: usize, exact: bool, input: Vec<
     sink.count_n("output_windows", n_res as u64);
     let term = app(
         "Build_case",
-        &[size.coq(), slide.coq(), exact.coq(), input.coq(), out.coq()],
+        &[size.coq(), slide.coq(), exact.coq(), input.coq(), out.coq(), {
+            let aggs = if with_aggs { sink.count("all_window_aggregators"); run_aggs(size, slide, exact, &input) } else { vec![] };
+            aggs_coq(&aggs)
+        }],
     );
     let d = describe(size, slide, exact, &input, &out);
     sink.push(term, d, n_data >= 2 && n_res >= 1);
@@ -142,9 +178,11 @@ pub fn generate(opts: &Opts, sink: &mut CaseSink) {
         };
         let exact = rng.chance(1, 2);
         let script = random_script(&mut rng, size);
-        emit(sink, size, slide, exact, script);
+        // a third of the random cases also go through every other window aggregator
+        let wa = rng.chance(1, 3);
+        emit_with(sink, size, slide, exact, script, wa);
         sink.count("random_multi_key");
     }
 }
 
-pub const RULE: &str = "cases = corpus + exhaustive single-key (size<=6 (10 thorough), slide<=size, len<=3*size+2, exact/non-exact) + random multi-key multi-round scripts with timestamps/watermarks/FlushBatch; a case is non-trivial if it has >=2 data elements and the implementation emitted >=1 window; distinct = distinct Coq case terms";
+pub const RULE: &str = "cases = corpus + exhaustive single-key (size<=6 (10 thorough), slide<=size, len<=3*size+2, exact/non-exact) + random multi-key multi-round scripts with timestamps/watermarks/FlushBatch, a third of them also through the window aggregators count, sum, max, min, first, last, fold_first and collect_vec+map (each output must be the aggregate of exactly the collected window); a case is non-trivial if it has >=2 data elements and the implementation emitted >=1 window; distinct = distinct Coq case terms";
